@@ -7,6 +7,8 @@ VARIANTS = ["cstring", "pipe0"]   # OpenMem(p, -1) on a NUL-free input; OpenPipe
 NATURAL = ["auto", "open"]     # esl_buffer_OpenFile / esl_buffer_Open without forcing: mode chosen from the file size (slurped here)
 PAGES = [1, 2, 3, 4, 5, 7, 8, 16, 64, 512, 4096]
 K_STABLE = "C05:stable-anchor:realloc-in-refill"
+K_MEMEND = "C05:setoffset:beyond-end-in-memory"
+K_AHEAD = "C05:anchor:ahead-of-cursor"
 
 
 def hx(b):
@@ -140,7 +142,11 @@ class C05(Prop):
         "open_wf", "refill_wf", "refill_guarantee", "getLine_refines", "fetchLine_refines", "read_refines",
         "getToken_refines", "fetchToken_refines", "lines_partition", "getLine_keeps_anchor", "countline_pagesize_independent",
         "history_spec", "history_mode_independent", "history_no_fault", "reread_under_anchor", "step_simulates", "get_prefix", "readLines_eq_specLines", "get_all_in_memory", "stable_ptr_valid_quiet", "open_quiet",
-        "stable_ptr_valid_partial", "stable_ptr_valid_fails_at")]
+        "stable_ptr_valid_partial", "stable_ptr_valid_fails_at",
+        # round 3: the API contract discharged
+        "step_total", "history_total", "history_total_no_fault", "error_only_outside_contract", "contract_implies_safe", "safe_decidable",
+        "unsafe_set_beyond_window", "fixed_setoffset_beyond_end_in_memory", "fixed_anchor_ahead_of_cursor", "fixed_rewind_before_anchor",
+        "stable_ptr_valid_iff", "plain_anchor_no_promise")]
     claimed = True
     level_text = ("Theorems (no bound on input, page size >= 1, or history length): every opener yields a well-formed window; buffer_refill preserves it and restores the page guarantee; "
                   "GetLine/FetchLine/FetchLineAsStr, GetToken/FetchToken/FetchTokenAsStr, Read each refine the abstract 'bytes + cursor' specification; "
@@ -315,19 +321,61 @@ class C05(Prop):
         for kind in ("file", "open", "pipe", "cmd"):
             out.append(dict(self.mk("openfail-" + kind, b"abc\n", "allfile", 4, ["openfail kind=" + kind, "getline"]), nomonitor=True))
         out.append(dict(self.mk("known-stable-realloc", b"abcd", "stream", 2, ["setstable o=0", "getline"]), known_key=K_STABLE))
+        # ---- outside the API contract: one scripted history per outcome of `Total` (exact model = implementation) ...
+        W = b"ab\ncd\nef\ngh\n"
+        for m in ("stream", "pipe", "file"):
+            for ps in (1, 2, 3, 4):
+                out.append(self.mk("total-rewind-refused.%s.%d" % (m, ps), W, m, ps, ["read k=9", "setanchor o=9", "trysetoffset o=1", "getoffset", "trysetanchor o=2", "trysetstable o=1", "raise o=9", "getline"], nomonitor=True, wild=True))
+                out.append(self.mk("total-beyond-end.%s.%d" % (m, ps), W, m, ps, ["read k=2", "trysetoffset o=13", "getoffset", "get", "getline", "trysetoffset o=12", "trysetoffset o=3", "getline"], nomonitor=True, wild=True))
+                out.append(self.mk("total-beyond-end-anchored.%s.%d" % (m, ps), W, m, ps, ["read k=2", "setanchor o=2", "trysetoffset o=40", "getoffset", "trysetoffset o=3", "getline", "trysetoffset o=12", "trysetoffset o=2", "raise o=2", "getline"], nomonitor=True, wild=True))
+                out.append(self.mk("total-lower-anchor.%s.%d" % (m, ps), W, m, ps, ["setanchor o=0", "read k=7", "setanchor o=5", "setanchor o=5", "trysetanchor o=3", "trysetanchor o=3", "raise o=5", "raise o=3", "trysetoffset o=4", "raise o=3", "getline"], nomonitor=True, wild=True))
+                out.append(self.mk("total-inwindow-rewind.%s.%d" % (m, ps), W * 3, m, max(ps, 2) * 8, ["read k=7", "trysetoffset o=3", "getline", "trysetoffset o=0", "getline", "trysetanchor o=1", "raise o=1"], nomonitor=True, wild=True))
+                out.append(self.mk("total-set-in-window.%s.%d" % (m, ps), W * 3, m, ps * 8, ["get", "tryset k=%d" % (ps * 8), "getoffset", "get", "tryset k=%d" % (ps * 8 + 1), "getline", "tryset k=4", "getoffset"], nomonitor=True, wild=True))
+        for m in ("string", "allfile", "mmap", "cstring"):
+            out.append(self.mk("total-memory-anywhere." + m, W, m, 2, ["read k=9", "setanchor o=9", "trysetoffset o=1", "trysetanchor o=11", "trysetstable o=40", "getline", "trysetoffset o=12", "getline", "trysetoffset o=13", "trysetoffset o=0", "get", "tryset k=12", "get", "tryset k=1"], nomonitor=True, wild=True))
+        # ... and what happens when a residual duty is violated (theorems unsafe_*): the documented-caller-error one stops before the
+        # out-of-bounds read; the two that the documentation does not put on the caller are known findings (the real code dies under ASan)
+        out.append(self.mk("unsafe-set-beyond-window", W, "stream", 2, ["get", "set k=5", "getoffset", "get", "getline"], nomonitor=True))
+        # regression inputs of the two defects found by the total statement and repaired in /repo (4515997, b86a62d): exact comparison
+        for m in ("string", "allfile", "mmap", "cstring", "auto", "open"):
+            out.append(self.mk("reg-setoffset-beyond-end-in-memory." + m, b"ab", m, 4, ["setoffset o=3", "getline", "setoffset o=2", "getline", "setoffset o=40", "getoffset"], nomonitor=True))
+        for m in ("stream", "pipe", "file"):
+            for ps in (1, 2, 3, 4):
+                out.append(self.mk("reg-anchor-ahead-of-cursor.%s.%d" % (m, ps), W, m, ps, ["setanchor o=%d" % min(ps, 2), "read k=1", "get", "getline", "getline", "raise o=%d" % min(ps, 2), "getline"], nomonitor=True))
+                out.append(self.mk("reg-stable-anchor-ahead-of-cursor.%s.%d" % (m, ps), W, m, ps, ["setstable o=%d" % min(ps, 2), "get", "read k=5", "getline", "raise o=%d" % min(ps, 2), "getline"], nomonitor=True))
+                out.append(self.mk("reg-rewind-before-anchor.%s.%d" % (m, ps), W, m, ps, ["setanchor o=0", "read k=3", "raise o=0", "setanchor o=3", "setoffset o=2", "read k=6", "getoffset", "raise o=3", "getline"], nomonitor=True))
         return out
 
-    def gen_wild(self, rng, src, nops):
-        """histories OUTSIDE the contract (rewinds without anchor, offsets at/after the end, anchors left of the window):
-        only model = implementation is checked on them (error statuses, fseeko path); they stay memory-safe"""
-        sp_cur = 0
+    def gen_wild(self, rng, src, nops, raw=False):
+        """histories OUTSIDE the API contract: every positioning call is a `try…` op with an arbitrary target (rewinds with and
+        without anchor, offsets at/after the end, anchors left/right of the window or ahead of the cursor, Set beyond the
+        guaranteed page). Both sides execute it only if it respects the residual duties SafeOp in their own current state
+        (else `unsafe`); model = implementation is compared exactly (statuses eslEINVAL/eslOK, offsets, anchor records),
+        and the theorem `history_total` says what the model does on every such history."""
+        L = len(src)
         ops = []
+        hot = [0, L, max(0, L - 1), L + 1, L + 7]
         for _ in range(nops):
             r = rng.random()
-            if r < 0.35: ops.append(rng.choice(["getline", "fetchline", "gettoken sep=20", "fetchtoken sep=2009", "read k=%d" % rng.randrange(0, 9), "get", "getoffset"]))
-            elif r < 0.7: ops.append("setoffset o=%d" % rng.choice([0, len(src), max(0, len(src) - 1), rng.randrange(0, len(src) + 1)]))
-            elif r < 0.85: ops.append(rng.choice(["setanchor", "setstable"]) + " o=0")
-            else: ops.append("raise o=%d" % rng.choice([0, rng.randrange(0, len(src) + 1)]))
+            near = rng.choice(hot)
+            o = rng.choice([near, max(0, near - 1), near + 1, max(0, near - rng.randrange(0, 9)), near + rng.randrange(0, 9), rng.randrange(0, L + 3)])
+            if r < 0.30:
+                ops.append(rng.choice(["getline", "fetchline", "gettoken sep=20", "fetchtoken sep=2009", "read k=%d" % rng.randrange(0, 9),
+                                       "read k=%d" % rng.randrange(0, 40), "get", "getoffset", "getline", "gettoken sep=20"]))
+            elif r < 0.60: ops.append("trysetoffset o=%d" % o)
+            elif r < 0.75: ops.append(rng.choice(["trysetanchor", "trysetanchor", "trysetstable"]) + " o=%d" % o)
+            elif r < 0.87: ops.append("raise o=%d" % o)
+            elif r < 0.93:
+                ops.append(rng.choice(["get", "getline", "gettoken sep=20"]))
+                ops.append("tryset k=%d" % rng.choice([0, 1, 2, 3, 5, 9, 17, rng.randrange(0, 70)]))
+            else: ops.append("getoffset")
+            hot.append(o)
+            if len(hot) > 12: hot.pop(5)
+        if raw:
+            # ungated positioning: also anchors ahead of the cursor and rewinds before the anchor (handled by the code since b86a62d;
+            # beyond the hypothesis of history_total, so these histories only check model = implementation); Set stays gated
+            ops = [o[3:] if o.startswith(("trysetoffset", "trysetanchor", "trysetstable")) else o for o in ops]
+        if L == 0: ops = [("read k=1" if o == "read k=0" else o) for o in ops]   # memcpy(p, NULL, 0) on an empty slurped file: UBSan noise, not this property
         return ops
 
     def cases(self, ctx):
@@ -359,10 +407,15 @@ class C05(Prop):
                 self.stats["modes"][m] = self.stats["modes"].get(m, 0) + 1
                 self.stats["pages"][ps] = self.stats["pages"].get(ps, 0) + 1
                 out.append(self.mk("g%d.%s.%d" % (i, m, ps), src, m, ps, ops))
-            if getattr(self, "with_wild", False) and rng.random() < 0.06 and len(src) > 0:
-                m, ps = rng.choice(["stream", "file", "pipe", "string", "allfile"]), rng.choice(PAGES)
-                out.append(self.mk("wild%d.%s.%d" % (i, m, ps), src, m, ps, self.gen_wild(rng, src, rng.choice([5, 30])), nomonitor=True))
-                self.stats["wild_cases"] += 1
+            if rng.random() < 0.5 and not big:
+                wsrc = src if (len(src) <= 300 and rng.random() < 0.7) else self.gen_edge_input(rng, rng.choice([1, 2, 3, 4, 8]))[:rng.choice([12, 40, 200])]
+                wops = self.gen_wild(rng, wsrc, rng.choice([5, 30, 80]), raw=(rng.random() < 0.35))
+                for _ in range(2):
+                    m, ps = rng.choice(["stream", "file", "pipe", "string", "allfile", "mmap", "file", "stream"]), rng.choice(PAGES[:9])
+                    if m == "mmap" and len(wsrc) == 0: m = "allfile"
+                    out.append(self.mk("wild%d.%s.%d" % (i, m, ps), wsrc, m, ps, wops, nomonitor=True, wild=True))
+                    self.stats["wild_cases"] += 1
+                    for o in wops: self.stats["ops"][o.split()[0]] = self.stats["ops"].get(o.split()[0], 0) + 1
         return out
 
     def extra_evidence(self, ctx):
@@ -400,7 +453,16 @@ class C05(Prop):
     def nontrivial(self, case, out):
         return len(out) >= 3 and sum(1 for l in out if l.startswith("ok") and " n=0 " not in l) >= 1
 
+    WILD_ST = ("ok", "eof", "eol", "einval", "unsafe")
+
     def monitor(self, ctx, case, out):
+        if case.get("wild"):
+            # outside the contract: only the documented statuses (eslEINVAL for a refused SetOffset/SetAnchor), never an internal error
+            for i, (op, l) in enumerate(zip(case["ops"][1:], out[1:]), 1):
+                if l.startswith(("fault", "atexit")): return None
+                if l.split()[0] not in self.WILD_ST:
+                    return Failure("monitor", "op %d %r outside the API contract but within the residual duties answered %r (documented: eslOK/eslEOF/eslEOL/eslEINVAL)" % (i, op, l[:60]))
+            return None
         if case.get("nomonitor"): return None
         ops = case["ops"]
         src, ps_eff, ps, mode = case_cfg(ops[0])
